@@ -388,6 +388,109 @@ func c16HeldForwarder(c *fw.Ctx, r *rand.Rand, idx int) {
 	c.Distinct(s.transcript(1000))
 }
 
+// c16Pressure: back-pressure scenarios. (1) The GUI is more than a full output queue behind when a search
+// ends by itself and quit arrives: shutdown must still be clean. (2) Many move-time limits of superseded
+// searches expire while the command loop is busy: the driver must still answer stop and isready.
+func c16Pressure(c *fw.Ctx, r *rand.Rand, idx int) {
+	rc := &recipes[[]int{0, 1, 2, 3}[r.Intn(4)]]
+	opts, _ := recipeOptions(r, rc)
+	if idx%2 == 0 {
+		s := newUCISession(rc, opts, 0, false, 1, false)
+		what := func() string { return fmt.Sprintf("engine %s options %v: %s", rc.name, opts, s.transcript(12)) }
+		if _, ok := s.sync(); !ok {
+			return
+		}
+		s.send("position startpos")
+		s.sync()
+		s.paused.Store(true)
+		time.Sleep(2 * time.Millisecond)
+		n := 101 + r.Intn(3)
+		byQuit := r.Intn(2) == 0
+		catchUp := time.Duration(20+r.Intn(30)) * time.Millisecond
+		done := make(chan struct{})
+		go func() { // the driver stops reading once its output queue is full; feed it from the side
+			for i := 0; i < n; i++ {
+				s.send("isready")
+			}
+			s.send("go depth 1")
+			if byQuit {
+				s.send("quit")
+			} else {
+				close(s.in)
+			}
+			close(done)
+		}()
+		time.Sleep(catchUp)
+		if idx%4 == 0 {
+			s.slowNs.Store(int64(500+r.Intn(2500)) * 1000) // the GUI catches up slowly: the queue stays full for a while
+		}
+		s.paused.Store(false) // the GUI catches up
+		select {
+		case <-done:
+		case <-time.After(uciWatchdog):
+			c.Violate("driver:shutdown", "driver stopped reading its input for good after the GUI fell behind: %s\n%s", what(), stacks())
+			return
+		}
+		c.Eval(1)
+		c.Count("stalled_reader_scenarios", 1)
+		if !s.waitClosed(uciWatchdog) {
+			s.slowNs.Store(0)
+			c.Violate("driver:shutdown", "output not closed after quit / end of input with a GUI that had fallen behind: %s\n%s", what(), stacks())
+		}
+		c.Distinct(fmt.Sprint("stalled", idx, n))
+		return
+	}
+	// (2) pile-up of expired move-time limits
+	s := newUCISession(rc, opts, 0, false, 1, true)
+	what := func() string { return fmt.Sprintf("engine %s options %v: %s", rc.name, opts, s.transcript(30)) }
+	defer func() {
+		s.gate.open()
+		if !s.shutdown(r.Intn(2) == 0) {
+			c.Violate("driver:shutdown", "output not closed after quit / end of input: %s\n%s", what(), stacks())
+		}
+	}()
+	if _, ok := s.sync(); !ok {
+		return
+	}
+	s.send("position startpos")
+	k := 12 + r.Intn(10)
+	for i := 0; i < k; i++ {
+		s.send(fmt.Sprintf("go infinite movetime %d", 25+r.Intn(10)))
+	}
+	if _, ok := s.sync(); !ok { // all k searches have been started (and superseded) by now
+		c.Violate("driver:no-readyok", "isready unanswered after %d go commands: %s\n%s", k, what(), stacks())
+		return
+	}
+	curGate.Store(nil) // keep the last search parked while the loop waits for it in Halt
+	blocked := s.gate.arm(3 + int64(r.Intn(20)))
+	s.send("go depth 3")
+	select {
+	case <-blocked:
+	case <-time.After(300 * time.Millisecond):
+		s.gate.open()
+		return
+	}
+	s.send("position startpos moves e2e4") // the loop now waits in Halt for the parked search
+	time.Sleep(70 * time.Millisecond)       // every move-time limit expires meanwhile
+	s.gate.open()
+	curGate.Store(s.gate)
+	gm := s.send("go infinite")
+	time.Sleep(5 * time.Millisecond)
+	s.send("stop")
+	_, _, answered := s.waitLine(gm, isBestmove, 20*time.Second)
+	_, synced := s.sync()
+	c.Eval(1)
+	c.Count("timer_pileup_scenarios", 1)
+	c.Distinct(fmt.Sprint("pileup", idx, k))
+	if !synced {
+		c.Violate("driver:no-readyok", "isready unanswered after %d move-time limits of superseded searches expired while the command loop was busy: %s\n%s", k, what(), stacks())
+		return
+	}
+	if !answered {
+		c.Violate("driver:stop-unanswered", "stop not answered after %d expired move-time limits piled up: %s", k, what())
+	}
+}
+
 // c16Hostile: random command scripts incl. malformed lines; every isready answered, clean shutdown.
 func c16Hostile(c *fw.Ctx, r *rand.Rand, idx int) {
 	rc := &recipes[r.Intn(len(recipes))]
@@ -724,12 +827,13 @@ func init() {
 			l := mkCases(nil, "stale", 32, seed, pick(tier, 4, 60))
 			l = mkCases(l, "late", 16, seed, pick(tier, 4, 80))
 			l = mkCases(l, "held", 8, seed, pick(tier, 3, 40))
+			l = mkCases(l, "pressure", 8, seed, pick(tier, 4, 40))
 			l = mkCases(l, "hostile", 32, seed, pick(tier, 5, 100))
 			l = mkCases(l, "blackbox", 16, seed, pick(tier, 2, 40))
 			return l
 		},
 		Floors: func(string) map[string]int64 {
-			return map[string]int64{"stale_sessions": 100, "stale_parked": 150, "hostile_sessions": 150, "isready_answered": 300, "final_go_checks": 100, "quit_during_search": 20, "leak_checks": 30, "timer_overlap_scenarios": 5, "late_answer_probes": 150, "held_forwarder_probes": 40, "answered_before_supersession": 20, "blackbox_sessions": 25, "blackbox_gos": 40, "hook_points_seen": 8}
+			return map[string]int64{"stale_sessions": 100, "stale_parked": 150, "hostile_sessions": 150, "isready_answered": 300, "final_go_checks": 100, "quit_during_search": 20, "leak_checks": 30, "timer_overlap_scenarios": 5, "late_answer_probes": 150, "held_forwarder_probes": 40, "stalled_reader_scenarios": 10, "timer_pileup_scenarios": 8, "answered_before_supersession": 20, "blackbox_sessions": 25, "blackbox_gos": 40, "hook_points_seen": 8}
 		},
 		Run: func(c *fw.Ctx, cs fw.Case) {
 			r := cs.Rand()
@@ -745,6 +849,12 @@ func init() {
 				for i := 0; i < cs.N; i++ {
 					c16Late(c, r, cs.Idx*1000+i)
 				}
+			case "pressure":
+				defer installDriverHooks(cs.Seed, []int{0, 1}[cs.Idx%2])()
+				for i := 0; i < cs.N; i++ {
+					c16Pressure(c, r, cs.Idx*1000+i)
+				}
+				leakCheck(c)
 			case "held":
 				defer installDriverHooks(cs.Seed, 4)()
 				for i := 0; i < cs.N; i++ {
